@@ -176,17 +176,22 @@ theorem checked_prop {W : World} {vid : Vid} {t f : Name} {v : Option VertexId}
   intro _ h
   simp [h] at hp
 
+theorem adapter_coerce_some (D : Data) (vid : Vid) (t to : Name) (x : VertexId) :
+    D.adapter.coerce vid t to (some x) = .ok (D.isA x to) := rfl
+
+theorem adapter_coerce_none (D : Data) (vid : Vid) (t to : Name) :
+    D.adapter.coerce vid t to none = .ok false := rfl
+
 theorem checked_coerce {W : World} {vid : Vid} {t to : Name} {v : Option VertexId}
     (hc : coercionOK W.S t to = true) (hv : activeOK W.D v t = true) :
-    W.env.adapter.coerce vid t to v =
-      .ok (match v with | some x => W.D.isA x to | none => false) := by
+    W.env.adapter.coerce vid t to v = W.D.adapter.coerce vid t to v := by
   have ht : W.S.isVertexType t = true := by
     simp only [coercionOK, Bool.and_eq_true, SchemaView.isIface] at hc
     unfold SchemaView.isVertexType
     cases h : W.S.type? t with
     | none => simp [h] at hc
     | some _ => rfl
-  cases v <;> simp [World.env, Env.checked, checkedAdapter, Data.adapter, ht, hc, hv]
+  simp [World.env, Env.checked, checkedAdapter, ht, hc, hv]
 
 theorem checked_nbrs {W : World} {eid : Eid} {t e target : Name} {ps : Params} {v : Option VertexId}
     (hd : edgeDeclOK W.S t e target ps = true) (hv : activeOK W.D v t = true) :
